@@ -47,6 +47,8 @@ func guard(f func() string) (out string) {
 
 var families = map[string]func(*Ctx){}
 
+func newRand(seed int64) *rand.Rand { return rand.New(rand.NewSource(seed)) }
+
 func main() {
 	fam := flag.String("family", "", "op family (property id)")
 	tier := flag.String("tier", "quick", "quick|thorough")
